@@ -122,6 +122,44 @@ func runC18(c *Ctx, r *Report) {
 	autoSave := c.Fn("repl", "AutoSave")
 	fn := c.SSAFn(autoSave)
 	fname := funcName(autoSave)
+	// the temp + write + rename sequence may have been moved into a function of the package AutoSave calls: the
+	// shape is then checked there (AutoSave itself must not touch the file system besides)
+	{
+		isOS := func(in ssa.Instruction, name string) bool {
+			call, ok := in.(*ssa.Call)
+			if !ok {
+				return false
+			}
+			obj := calleeObj(call)
+			return obj != nil && obj.Pkg() != nil && obj.Pkg().Path() == "os" && obj.Name() == name
+		}
+		count := func(f *ssa.Function, name string) int {
+			n := 0
+			eachInstr(f, func(in ssa.Instruction) {
+				if isOS(in, name) {
+					n++
+				}
+			})
+			return n
+		}
+		if count(fn, "CreateTemp") == 0 {
+			for _, h := range c.localHelpers(fn, 1) {
+				if h != fn && count(h, "CreateTemp") == 1 && len(c.staticCallSites(h)) == 1 {
+					outer := fn
+					fn = h
+					nMut := 0
+					eachInstr(outer, func(in ssa.Instruction) {
+						if call, ok := in.(*ssa.Call); ok && isOSFunc(calleeObj(call), osMutators) {
+							nMut++
+						}
+					})
+					r.Check(nMut == 0, "C18.R3", fname, "AutoSave touches the file system only through its save helper", c.Pos(outer.Pos()),
+						"AutoSave mutates the file system outside the temp + write + rename sequence it delegates")
+					break
+				}
+			}
+		}
+	}
 	autoSaveFile := c.Const("repl", "AutoSaveFile")
 	stateName := ""
 	if autoSaveFile.Val() != nil {
